@@ -90,6 +90,7 @@ type ACase struct {
 	Pl      json.RawMessage `json:"pl"`
 	MExpRaw json.RawMessage `json:"mexp,omitempty"`
 	MPlRaw  json.RawMessage `json:"mpl,omitempty"`
+	OrdObs  bool            `json:"ordobs,omitempty"` // C08: the order of k-selection and its comparison is observable on this case
 }
 
 // ----------------------------------------------- pools ------------------------------------------------------
